@@ -44,11 +44,20 @@ impl Backend {
     }
 }
 
+thread_local! {
+    /// path the next compilations on this thread are told their source comes from (relative `include` / `mod x;` of
+    /// corpus files resolve against it); None = the fixed pseudo path
+    static SOURCE_PATH: std::cell::RefCell<Option<PathBuf>> = const { std::cell::RefCell::new(None) };
+}
+pub fn set_source_path(p: Option<PathBuf>) {
+    SOURCE_PATH.with(|s| *s.borrow_mut() = p);
+}
 fn new_ctx(count: &Arc<AtomicU64>, scheduler: bool) -> (ExecContext, LocalBufferDriver) {
     let mut driver = LocalBufferDriver::new(0);
     driver.count = count.clone();
     let plug: Box<dyn Plugin> = Box::new(driver.get_as_plugin());
-    let mut ctx = ExecContext::new([plug].into_iter(), Some(PathBuf::from("/verif-input.mmm")), Config::default());
+    let path = SOURCE_PATH.with(|s| s.borrow().clone()).unwrap_or_else(|| PathBuf::from("/verif-input.mmm"));
+    let mut ctx = ExecContext::new([plug].into_iter(), Some(path), Config::default());
     if scheduler {
         ctx.add_system_plugin(mimium_scheduler::get_default_scheduler_plugin());
     }
@@ -304,6 +313,18 @@ pub fn full_run(backend: Backend, src: &str, scheduler: bool, n: usize, inputs: 
             fr.states.push(w);
             fr.cursors.push(c);
         }
+    }
+    Ok(fr)
+}
+
+/// like `full_run`, the input stream sized by the number of input channels the compiled program declares
+pub fn full_run_auto(backend: Backend, src: &str, scheduler: bool, n: usize, stream: &dyn Fn(usize, usize) -> Vec<f64>) -> Result<FullRun, RunErr> {
+    let mut r = Run::start(backend, src, scheduler)?;
+    let io = r.io().map(|i| (i.input, i.output)).unwrap_or((0, 0));
+    let mut fr = FullRun { io, out: vec![], states: vec![], cursors: vec![] };
+    for t in 0..n {
+        let o = r.step(t as u64, &stream(t, io.0 as usize))?;
+        fr.out.push(o);
     }
     Ok(fr)
 }
